@@ -628,6 +628,14 @@ def exclusion_rules(chk, cr, evs):
                     ca = c.as_atom()
                     if pol and ca and ca[0] == "lt" and ".query(" in ca[1].key():
                         thr_ok = True
+        if not thr_ok and false_ev is not None:
+            # the batched spelling: d, nn = tree.query(all positions); keep[nn[d < threshold]] = False
+            ix = false_ev[1].target.as_atom()[2][0].as_atom()
+            if ix and ix[0] == "sub" and len(ix[2]) == 1:
+                sel, m_ = ix[1].as_atom(), ix[2][0].as_atom()
+                if sel and sel[0] == "sub" and sel[2] and sel[2][0] == P.const(1) and ".query(" in sel[1].key() and m_ and m_[0] == "lt" \
+                        and m_[1].key() == P.atom(("sub", sel[1], (P.const(0),))).key():
+                    thr_ok = True
         chk.ob("R03.5", CR, "Crystal." + q, "atoms inside the ball are marked, and the sites coinciding with the centre's own atoms (nearest site within "
                "the threshold) are unmarked", set_true and set_false and thr_ok, fingerprint="mark")
         # the exclusion must be final: applied after every ball has been marked (outside the loop over the centre's atoms), or
